@@ -89,19 +89,84 @@ Proof.
 Qed.
 
 (** ** the abstract theorems at the concrete algebra over R *)
+Ltac laws := first [exact sv_s0 | exact sv_s1 | exact sv_sadd | exact sv_smul | exact ai_sneg | exact sv_dot_add_l | exact sv_dot_add_r
+  | exact sv_dot_scale_r | exact sv_dot_zero_r | exact sv_dot_zero_l | exact sv_dot_sym | exact sv_phi_adj | exact sv_dot_ext | exact sv_M_sym
+  | exact ai_P_sym | exact ai_pofI_app | exact ai_padd_app | exact ai_pshift_app | exact ai_pdown_app].
+
 Section C02R.
 Context {X : Type} (nd : X -> node (SpatialVec R) (Vec3 R) (SpInertia (T:=R))) (dy : X -> dyn R (SpatialVec R)).
+Notation WTR := (((X * abi R (SpatialVec R) (ArtInertia (T:=R))) * zrec R (SpatialVec R)) * (SpatialVec R * list R))%type.
 
 (** per-body hypothesis: the inverse computed for D = ~H P H is a symmetric inverse, and one mobility force per mobility *)
-Definition body_ok (y : X * abi R (SpatialVec R) (ArtInertia (T:=R))) : Prop := node_ok KR AR nd dy y.
+Definition body_ok (y : X * abi R (SpatialVec R) (ArtInertia (T:=R))) : Prop := node_ok KR nd dy y.
+
+(** weak-form specification of inverse dynamics (see C02_Proofs.rnea_spec) *)
+Theorem rnea_spec_R (ud v : X -> list R) (t : tree X) :
+  tsum (tmap (fun r => dotU KR (snd r) (v (fst (fst (fst r))))) (rnea KR AR nd dy ud t))
+  = tsum (tmap (fun r => dotU KR (snd r) (ud (fst (fst r)))) (mulM KR nd v t))
+    + tsum (tmap (fun r => dot KR (snd r) (d_a (dy (fst (fst r))))) (accum KR (fun xv => nd (fst xv)) (MW KR nd) (mulJ KR nd v t)))
+    + tsum (tmap (fun xw => dot KR (vsub KR AR (d_g (dy (fst xw))) (d_F (dy (fst xw)))) (snd xw)) (mulJ KR nd v t))
+    - tsum (tmap (fun x => dotU KR (d_f (dy x)) (v x)) t).
+Proof. eapply rnea_spec; laws. Qed.
+
+Theorem rnea_affine_in_udot_R (ud v : X -> list R) (t : tree X) :
+  tsum (tmap (fun r => dotU KR (snd r) (v (fst (fst (fst r))))) (rnea KR AR nd dy ud t))
+  = tsum (tmap (fun r => dotU KR (snd r) (ud (fst (fst r)))) (mulM KR nd v t))
+    + tsum (tmap (fun r => dotU KR (snd r) (v (fst (fst (fst r))))) (rnea KR AR nd dy (fun _ => []) t)).
+Proof. eapply rnea_affine_in_udot; laws. Qed.
 
 (** MAIN: inverse dynamics of the forward-dynamics accelerations gives zero residual, for every tree *)
 Theorem fd_then_rnea_zero_R (t : tree X) :
   (forall y, In y (flatten (abi_pass KR AR nd t)) -> body_ok y) ->
   Forall (fun r => snd r = map (fun _ => 0) (n_H (nd (w_x (fst (fst (fst r)))))))
          (flatten (rnea_of_fd KR AR nd dy t)).
-Proof.
-  apply (fd_then_rnea_zero KR AR sv_s0 sv_s1 sv_sadd sv_smul ai_sneg sv_dot_add_l sv_dot_add_r sv_dot_scale_r sv_dot_zero_r
-           sv_dot_zero_l sv_dot_sym sv_phi_adj sv_dot_ext sv_M_sym ai_P_sym ai_pofI_app ai_padd_app ai_pshift_app ai_pdown_app nd dy).
-Qed.
+Proof. eapply fd_then_rnea_zero; laws. Qed.
+
+(** forward dynamics solves  M udot + C = J^T F + f  with C the zero-acceleration, zero-force value of inverse dynamics *)
+Theorem fd_satisfies_eom_R (v : X -> list R) (t : tree X) :
+  (forall y, In y (flatten (abi_pass KR AR nd t)) -> body_ok y) ->
+  let vw := fun w : WTR => v (w_x w) in
+  let ndw := fun w : WTR => nd (w_x w) in
+  let dyw := fun w : WTR => dy (w_x w) in
+  tsum (tmap (fun r => dotU KR (snd r) (w_ud (fst (fst r)))) (mulM KR ndw vw (fd KR AR nd dy t)))
+  + tsum (tmap (fun r => dotU KR (snd r) (vw (fst (fst (fst r))))) (rnea KR AR ndw (dy_bias KR dy) (fun _ => []) (fd KR AR nd dy t)))
+  = tsum (tmap (fun xw => dot KR (d_F (dyw (fst xw))) (snd xw)) (mulJ KR ndw vw (fd KR AR nd dy t)))
+    + tsum (tmap (fun w => dotU KR (d_f (dyw w)) (vw w)) (fd KR AR nd dy t)).
+Proof. intros Hok. eapply (fd_satisfies_eom KR AR); try laws. exact Hok. Qed.
+
+(** M (M^-1 f) = f *)
+Theorem mulM_mulMInv_id_R (t : tree X) :
+  (forall y, In y (flatten (abi_pass KR AR nd t)) -> body_ok y) ->
+  Forall (fun r => snd r = d_f (dy (w_x (fst (fst r))))) (flatten (mulM_of_mulMInv KR AR nd dy t)).
+Proof. eapply mulM_mulMInv_id; laws. Qed.
 End C02R.
+
+(** ** non-vacuity: a concrete tree (Ground - pin body - welded body) meets the per-body hypotheses with the
+    Gauss-Jordan inverse of the model, so the main theorem applies to it *)
+Definition ex_nd (x : nat) : node (SpatialVec R) (Vec3 R) (SpInertia (T:=R)) :=
+  match x with
+  | O => mkNode (0,0,0) [] (0, (0,0,0), ((0,0,0),(0,0,0)))
+  | S O => mkNode (0,0,0) [((0,0,1),(0,0,0))] (1, (1,0,0), ((1,2,2),(0,0,0)))
+  | _ => mkNode (1,0,0) [] (2, (0,1,0), ((3,1,3),(0,0,0)))
+  end.
+Definition ex_dy (x : nat) : dyn R (SpatialVec R) :=
+  match x with
+  | O => mkDyn ((0,0,0),(0,0,0)) ((0,0,0),(0,0,0)) ((1,0,0),(0,0,0)) []
+  | S O => mkDyn ((0,0,0),(0,1,0)) ((1,0,0),(0,0,0)) ((0,0,1),(0,1,0)) [1]
+  | _ => mkDyn ((0,0,0),(0,0,1)) ((0,1,0),(0,0,0)) ((1,0,0),(0,0,1)) []
+  end.
+Definition ex_t : tree nat := Node 0%nat [Node 1%nat [Node 2%nat []]].
+Example ex_ok : forall y, In y (flatten (abi_pass KR AR ex_nd ex_t)) -> body_ok ex_nd ex_dy y.
+Proof.
+  intros y Hy. cbn [abi_pass ex_t inward flatten flat_map map app root] in Hy.
+  destruct Hy as [<-|[<-|[<-|[]]]]; unfold body_ok, node_ok, sym_inverse; cbn [fst snd ex_nd ex_dy n_H d_f length].
+  - split; [split|reflexivity]; intros [|? ?] E; try discriminate; reflexivity.
+  - split; [split|reflexivity]; intros [|e0 [|? ?]] E; try discriminate.
+    + cbv - [Rplus Rmult Rminus Rdiv Ropp Rinv IZR]. f_equal; field; try lra.
+    + cbv - [Rplus Rmult Rminus Rdiv Ropp Rinv IZR]. f_equal; field; try lra.
+  - split; [split|reflexivity]; intros [|? ?] E; try discriminate; reflexivity.
+Qed.
+Example ex_fd_then_rnea_zero :
+  Forall (fun r => snd r = map (fun _ => 0) (n_H (ex_nd (w_x (fst (fst (fst r)))))))
+         (flatten (rnea_of_fd KR AR ex_nd ex_dy ex_t)).
+Proof. exact (fd_then_rnea_zero_R ex_nd ex_dy ex_t ex_ok). Qed.
